@@ -191,6 +191,56 @@ def _unlimit():
         pass
 
 
+def scribble(o, _seen=None, _depth=0):
+    """what a caller may legitimately do with a value a decoder handed out: overwrite it.  Every mutable part of `o` (fields of
+    nested attrs objects that accept assignment, list elements, bytearrays) is changed in place.  A later, independent decode
+    of the same bytes has to be unaffected: decoding is a function of the bytes alone (a decoder that hands out shared or
+    cached objects fails this).  Frozen objects refuse the assignment and are left alone."""
+    import enum
+    try:
+        import attr
+    except Exception:  # noqa
+        attr = None
+    if _seen is None:
+        _seen = set()
+    if o is None or id(o) in _seen or _depth > 6:
+        return
+    _seen.add(id(o))
+    if isinstance(o, bytearray):
+        for i in range(len(o)):
+            o[i] ^= 0xFF
+        o.extend(b"\x55")
+        return
+    if isinstance(o, list):
+        for x in o:
+            scribble(x, _seen, _depth + 1)
+        return
+    if attr is not None and not isinstance(o, type) and attr.has(type(o)):
+        for f in attr.fields(type(o)):
+            try:
+                v = getattr(o, f.name)
+            except Exception:  # noqa
+                continue
+            if isinstance(v, enum.Enum):
+                ms = list(type(v))
+                new = ms[(ms.index(v) + 1) % len(ms)]
+            elif isinstance(v, bool):
+                new = not v
+            elif isinstance(v, int):
+                new = v ^ 5
+            elif isinstance(v, bytes):
+                new = v + b"\x99"
+            elif v is None:
+                continue
+            else:
+                scribble(v, _seen, _depth + 1)
+                continue
+            try:
+                setattr(o, f.name, new)
+            except Exception:  # noqa
+                pass
+
+
 def hx(b):
     if b is None:
         return "none"
